@@ -84,7 +84,7 @@ def run(chk):
         for v in vs[:1]:
             e = t["ev"][v["at"] - 1]
             src = t["ev"][v["at"] - 2] if e["k"] == "drain" else e
-            key = "%s:lite:%s:%s" % (v["clause"], src["api"] + ("+fr" if src.get("fr") else ""), re.sub(r"\d+", "N", v["detail"]))
+            key = "%s:lite:%s:%s" % (v["clause"], src.get("api", src["k"]) + ("+fr" if src.get("fr") else ""), re.sub(r"\d+", "N", v["detail"]))
             nc = sum(1 for x in t["ev"][: v["at"]] if x["k"] != "drain")
             if key not in found or nc < found[key][0]:
                 found[key] = (nc, t, v, src)
